@@ -95,9 +95,13 @@ def splitView [DecidableEq T] (n1 : Nat) (ds : DS R T W) : Option (DS R T W × D
 /-- `split_with_ratio` on owned data: the raw row-major buffers are cut with
 `split_off(n1 * p)` resp. `split_off(n1 * t)` and re-shaped; weights are cut only
 when there is one per sample, otherwise the first part keeps them all.
+`std` = both `is_standard_layout()` asserts hold (the documented panic otherwise).
+The buffers are the arrays' own elements in logical order (`into_iter().collect()`),
+also for an array that is a slice of a larger allocation.
 Only plain array targets have this method. -/
-def splitOwned (n1 : Nat) (ds : DS R T W) : Option (DS R T W × DS R T W) :=
-  if ds.n < n1 then none
+def splitOwned (std : Bool) (n1 : Nat) (ds : DS R T W) : Option (DS R T W × DS R T W) :=
+  if std = false then none
+  else if ds.n < n1 then none
   else
     let n2 := ds.n - n1
     let rb := ds.recs.flatten
@@ -219,11 +223,37 @@ def sampleChunks [DecidableEq T] (size : Nat) (ds : DS R T W) : Option (List (DS
     { ds with recs := (ds.recs.drop (i * size)).take size, tgts := g, weights := [], fnames := [], tnames := [],
               counts := recount ds.counted ds.t g }
 
+/-! ### accessors that pair a sample with its weight -/
+
+/-- `weight_for(i)`: the weight stored for sample `i`, `1.0` (`one`) when there is none -/
+def weightFor (one : W) (ds : DS R T W) (i : Nat) : W := (ds.weights[i]?).getD one
+
+/-- `if !freqs.contains_key(elm) { freqs.insert(elm, 0.0) }; *freqs.get_mut(elm) += val`
+(first-occurrence order; the driver sorts) -/
+def addFreq [DecidableEq T] [Add W] (zero : W) (m : List (T × W)) (x : T) (w : W) : List (T × W) :=
+  match m with
+  | [] => [(x, zero + w)]
+  | (y, c) :: rest => if y = x then (y, c + w) :: rest else (y, c) :: addFreq zero rest x w
+
+/-- `axis_iter(Axis(0)).enumerate().filter(mask.get(i).unwrap_or(true)).map((i, x) => (x, weight_for(i)))`:
+the target rows whose *position* passes the mask, each with the weight of that position -/
+def maskedRows (one : W) (mask : List Bool) (ds : DS R T W) : List (List T × W) :=
+  ((List.range ds.tgts.length).filter fun i => mask.getD i true).filterMap fun i =>
+    (ds.tgts[i]?).map fun g => (g, weightFor one ds i)
+
+/-- accumulation of `label_frequencies_with_mask` over rows already paired with a weight -/
+def accFreqs [DecidableEq T] [Add W] (zero : W) (rows : List (List T × W)) : List (T × W) :=
+  rows.foldl (fun m gw => gw.1.foldl (fun m x => addFreq zero m x gw.2) m) []
+
+/-- `label_frequencies_with_mask(mask)`; `label_frequencies()` is the empty mask -/
+def labelFreqsWithMask [DecidableEq T] [Add W] (zero one : W) (mask : List Bool) (ds : DS R T W) : List (T × W) :=
+  accFreqs zero (maskedRows one mask ds)
+
 /-! ### operation sequences (single label carrier `T`, `ofBool` embeds one-vs-all targets) -/
 
 inductive Op (T : Type) where
   | splitView (n1 : Nat)
-  | splitOwned (n1 : Nat)
+  | splitOwned (std : Bool) (n1 : Nat)
   | shuffle (idx : List Nat)
   | bootstrap (ns nf : Nat) (idx fidx : List Nat)
   | bootstrapSamples (ns : Nat) (idx : List Nat)
@@ -243,7 +273,7 @@ inductive Op (T : Type) where
 def apply [DecidableEq T] (ofBool : Bool → T) (op : Op T) (ds : DS R T W) : Option (List (DS R T W)) :=
   match op with
   | .splitView n1 => (splitView n1 ds).map fun (a, b) => [a, b]
-  | .splitOwned n1 => if ds.counted then none else (splitOwned n1 ds).map fun (a, b) => [a, b]
+  | .splitOwned std n1 => if ds.counted then none else (splitOwned std n1 ds).map fun (a, b) => [a, b]
   | .shuffle idx => (shuffle idx ds).map ([·])
   | .bootstrap ns nf idx fidx => (bootstrap ns nf idx fidx ds).map ([·])
   | .bootstrapSamples ns idx => (bootstrapSamples ns idx ds).map ([·])
